@@ -177,7 +177,11 @@ impl<'a> Model<'a> {
         let mut used: BTreeSet<String> = own_v.iter().map(|(n, _)| n.clone()).collect();
         let mut out = vec![];
         for c in cands {
-            let name = if used.contains(&c.name) { format!("{}_{}", c.field, c.name) } else { c.name.clone() };
+            // `<field>_<name>` when the name is taken; if that is taken too, keep prefixing
+            let mut name = c.name.clone();
+            while used.contains(&name) {
+                name = format!("{}_{}", c.field, name);
+            }
             used.insert(name.clone());
             out.push((name, c.effect, true));
         }
@@ -192,7 +196,10 @@ impl<'a> Model<'a> {
         let (own_v, cands, own) = self.members(i);
         let mut used: BTreeSet<String> = own_v.iter().map(|(n, _)| n.clone()).collect();
         for c in cands {
-            let name = if used.contains(&c.name) { format!("{}_{}", c.field, c.name) } else { c.name.clone() };
+            let mut name = c.name.clone();
+            while used.contains(&name) {
+                name = format!("{}_{}", c.field, name);
+            }
             used.insert(name);
         }
         let mut seen = BTreeSet::new();
